@@ -11,6 +11,7 @@ class ScnStops(c_net.Scn):
     def harness_cfg(self):
         c = super().harness_cfg()
         c["stops"] = STOPS
+        c["end_emit"] = True      # every module also emits messages during tear-down (never processed, must still be released)
         return c
 
 
